@@ -35,7 +35,22 @@ func sampleByte(track uint32, n int, i int) byte {
 
 // synth builds the file bytes. Chunk offsets in the Raws are relative to the mdat payload on entry and absolute
 // file offsets on return.
-func synth(tracks []*trackSpec, mdatFirst bool, mvTimescale uint32, payloadLen uint64) ([]byte, error) {
+// layout: ftyp [moov between] mdat   or   ftyp mdat [between moov]; the mdat header is 8 bytes or the 16-byte largesize form;
+// between = 0 nothing | 1 free | 2 skip | 3 an unknown box; mvhdShort: mvhd duration below the track durations.
+type layoutSpec struct {
+	mdatFirst bool
+	largeHdr  bool
+	between   int
+	pad       int
+	mvhdShort bool
+}
+
+func (l layoutSpec) String() string {
+	return fmt.Sprintf("mdatFirst=%v largesize-mdat-header=%v between=%d/%d mvhdShort=%v", l.mdatFirst, l.largeHdr, l.between, l.pad, l.mvhdShort)
+}
+
+func synth(tracks []*trackSpec, lay layoutSpec, mvTimescale uint32, payloadLen uint64) ([]byte, error) {
+	mdatFirst := lay.mdatFirst
 	ftyp := mp4.NewFtyp("isom", 0x200, []string{"isom", "iso2", "mp41"})
 	moov := mp4.NewMoovBox()
 	mvhd := mp4.CreateMvhd()
@@ -90,10 +105,29 @@ func synth(tracks []*trackSpec, mdatFirst bool, mvTimescale uint32, payloadLen u
 		moov.AddChild(trak)
 		stbls = append(stbls, stbl)
 	}
+	if lay.mvhdShort {
+		mvhd.Duration /= 3
+	}
+	var between mp4.Box
+	switch lay.between {
+	case 1:
+		between = mp4.NewFreeBox(make([]byte, lay.pad))
+	case 2:
+		between = mp4.NewSkipBox(make([]byte, lay.pad))
+	case 3:
+		between = mp4.CreateUnknownBox("abcd", uint64(8+lay.pad), make([]byte, lay.pad))
+	}
 	// absolute offsets
-	base := ftyp.Size() + 8
+	hdrLen := uint64(8)
+	if lay.largeHdr {
+		hdrLen = 16
+	}
+	base := ftyp.Size() + hdrLen
 	if !mdatFirst {
 		base += moov.Size()
+		if between != nil {
+			base += between.Size()
+		}
 	}
 	for i, t := range tracks {
 		for c := range t.raw.Offs {
@@ -122,19 +156,37 @@ func synth(tracks []*trackSpec, mdatFirst bool, mvTimescale uint32, payloadLen u
 		return nil, err
 	}
 	mdat := func() {
-		var h [8]byte
-		binary.BigEndian.PutUint32(h[:], uint32(8+len(payload)))
-		copy(h[4:], "mdat")
-		buf.Write(h[:])
+		if lay.largeHdr {
+			var h [16]byte
+			binary.BigEndian.PutUint32(h[:], 1)
+			copy(h[4:], "mdat")
+			binary.BigEndian.PutUint64(h[8:], uint64(16+len(payload)))
+			buf.Write(h[:])
+		} else {
+			var h [8]byte
+			binary.BigEndian.PutUint32(h[:], uint32(8+len(payload)))
+			copy(h[4:], "mdat")
+			buf.Write(h[:])
+		}
 		buf.Write(payload)
 	}
 	if mdatFirst {
 		mdat()
+		if between != nil {
+			if err := between.Encode(&buf); err != nil {
+				return nil, err
+			}
+		}
 	}
 	if err := moov.Encode(&buf); err != nil {
 		return nil, err
 	}
 	if !mdatFirst {
+		if between != nil {
+			if err := between.Encode(&buf); err != nil {
+				return nil, err
+			}
+		}
 		mdat()
 	}
 	return buf.Bytes(), nil
@@ -293,8 +345,12 @@ func files(seed uint64, n int, bin, tmp string) {
 				}
 			}
 		}
-		mdatFirst := rng.Intn(3) == 0
-		data, err := synth(tracks, mdatFirst, uint32(rng.Pick(1000, 600, 90000)), payloadLen+uint64(rng.Intn(3)))
+		lay := layoutSpec{mdatFirst: rng.Intn(3) == 0, largeHdr: rng.Intn(3) == 0, between: rng.Intn(4), mvhdShort: rng.Intn(12) == 0}
+		if lay.between > 0 {
+			lay.pad = rng.Range(0, 40)
+		}
+		mdatFirst := lay
+		data, err := synth(tracks, lay, uint32(rng.Pick(1000, 600, 90000)), payloadLen+uint64(rng.Intn(3)))
 		if err != nil {
 			fail("harness", "synth-error", fmt.Sprint(err), "could not synthesize a file")
 			continue
@@ -378,13 +434,13 @@ func files(seed uint64, n int, bin, tmp string) {
 	out.Flush()
 }
 
-func describe(tracks []*trackSpec, mdatFirst bool, ms uint64) string {
+func describe(tracks []*trackSpec, mdatFirst layoutSpec, ms uint64) string {
 	var ps []string
 	for _, t := range tracks {
 		ps = append(ps, fmt.Sprintf("track %d %s timescale %d edts=%v tables: %s", t.id, t.media, t.timescale, t.edts,
 			strings.ReplaceAll(t.raw.Encode(), "\t", " | ")))
 	}
-	return fmt.Sprintf("mp4ff-crop -d %d ; mdatFirst=%v ; %s", ms, mdatFirst, strings.Join(ps, " || "))
+	return fmt.Sprintf("mp4ff-crop -d %d ; %v ; %s", ms, mdatFirst, strings.Join(ps, " || "))
 }
 
 func checkOutput(tracks []*trackSpec, xs []*tbl.Ref, ref *trackSpec, refX *tbl.Ref, ms uint64, inData []byte, outPath, desc string) {
@@ -520,6 +576,17 @@ func checkOutput(tracks []*trackSpec, xs []*tbl.Ref, ref *trackSpec, refX *tbl.R
 			}
 			kept += sz
 		}
+		// every chunk of the output lies inside the new mdat payload
+		for c := 0; c < xo.NChunks; c++ {
+			var csz uint64
+			for n := xo.ChunkFirst[c]; n < xo.ChunkFirst[c]+xo.ChunkCount[c]; n++ {
+				csz += uint64(xo.Size[n-1])
+			}
+			if xo.ChunkOff[c] < mdatStart || xo.ChunkOff[c]+csz > mdatEnd {
+				fail("mp4ff-crop", "offset-outside-mdat", desc, fmt.Sprintf("track %d chunk %d at %d+%d, mdat payload is [%d,%d)", t.id, c+1, xo.ChunkOff[c], csz, mdatStart, mdatEnd))
+				break
+			}
+		}
 		// sample description ids of the kept chunks
 		for c := 0; c < xo.NChunks && c < x.NChunks; c++ {
 			if xo.ChunkSdid[c] != x.ChunkSdid[c] {
@@ -532,7 +599,7 @@ func checkOutput(tracks []*trackSpec, xs []*tbl.Ref, ref *trackSpec, refX *tbl.R
 		}
 	}
 	if inF != nil && f.Moov.Mvhd.Duration > inF.Moov.Mvhd.Duration {
-		fail("mp4ff-crop", "duration-grew", desc, "mvhd duration grew")
+		fail("writeUptoMdat", "mvhd-duration-grew", desc, fmt.Sprintf("mvhd duration %d > original %d", f.Moov.Mvhd.Duration, inF.Moov.Mvhd.Duration))
 	}
 	if kept != uint64(len(f.Mdat.Data)) {
 		fail("mp4ff-crop", "mdat-size", desc, fmt.Sprintf("new mdat payload %d bytes, kept samples %d bytes", len(f.Mdat.Data), kept))
